@@ -22,7 +22,8 @@ IMPORTS = ("From PM.theories Require Import Base Expr Struct FrBCode Crc FrBComm
 
 RULE = {
     "C03": ("rtu/binary: every message class of both decoder tables (field values at boundaries, list lengths "
-            "0..max) plus payloads forced through all 256 byte values (0x7B/0x7D included) x unit ids "
+            "0..max), ExceptionResponse for 27 refused function codes across 1..127 (incl. functions without a message "
+            "class: 0x09 0x0A 0x41 0x64 0x7F) x exception codes 1..11, plus payloads forced through all 256 byte values (0x7B/0x7D included) x unit ids "
             "{0,1,17,123,125,247,255,random}: buildPacket compared with the spec ADU (bitwise CRC), the packet fed "
             "whole to a fresh receiver; computeCRC/checkCRC on all strings of length <= 1, 600 of length 2 and random "
             "strings up to 300 bytes; calculateRtuFrameSize of every built frame. non-trivial = the packet was built; "
@@ -306,6 +307,24 @@ def extreme_specs():
     ]
 
 
+EXC_FCS = [1, 2, 3, 4, 5, 6, 7, 8, 9, 0x0A, 0x0B, 0x0C, 0x0F, 0x10, 0x11, 0x14, 0x15, 0x16, 0x17, 0x18, 0x2B,
+           0x41, 0x42, 0x64, 0x6E, 0x7E, 0x7F]
+UNIMPLEMENTED_FCS = [0x09, 0x0A, 0x41, 0x64, 0x7F]
+
+
+def exception_specs(fcs=None, codes=None):
+    """ExceptionResponse(fc, code): refused function codes across 1..127 including functions the library has
+    no message class for, x all exception codes 1..11 (response direction)"""
+    return [("ExceptionResponse", True, ("ExceptionResponse", (fc, code), {}, {}))
+            for fc in (fcs or EXC_FCS) for code in (codes or range(1, 12))]
+
+
+def known_undecodable(cls, pdu):
+    """the PDUs the unchanged decoder is KNOWN to reject although the class encoded them (finding
+    F-*-rtubin-pdu-not-decodable): FIFO responses, odd diagnostic payloads, exception of 'function 0'"""
+    return cls == "ReadFifoQueueResponse" or (len(pdu) > 0 and pdu[0] in (0x08, 0x80))
+
+
 def packet_of(kind, spec, uid):
     m = build_msg(spec, uid)
     fr = framer_cls(kind)(decoder(False))
@@ -370,6 +389,9 @@ def c03_cases(tier):
         for kind in ("rtu", "bin"):
             for uid in (1, 247):
                 todo.append((name, client, spec, kind, uid, "extreme"))
+    for name, client, spec in exception_specs():
+        for kind in ("rtu", "bin"):
+            todo.append((name, client, spec, kind, r.choice([1, 17, 247]), "exception"))
     # unit ids: all 256 on one small request
     rd = ("ReadHoldingRegistersRequest", (1, 2), {}, {})
     for uid in range(256):
@@ -408,7 +430,7 @@ def suite_c03(tier):
 def suite_size(tier):
     cases = []
     r = common.rng("b_size")
-    for name, client, spec in messages(tier, "b_msgs") + forced_payload_specs()[::16]:
+    for name, client, spec in messages(tier, "b_msgs") + forced_payload_specs()[::16] + exception_specs(codes=[1, 11]):
         uid = r.randrange(256)
         m, data, pkt = packet_of("rtu", spec, uid)
         try:
@@ -501,6 +523,17 @@ def suite_c06(tier):
                 for mask in range(0, 1 << (n - 1), step):
                     cuts = [i + 1 for i in range(n - 1) if mask >> i & 1]
                     cases.append(stream_case(kind, client, f2, cuts_to_chunks(stream, cuts), "allcuts2"))
+            # (a0) exception responses for functions the library does not implement: ALL cut sets, and pairs
+            if client:
+                for spec3 in exception_specs(UNIMPLEMENTED_FCS, [1, 4, 11]):
+                    fe = pick_frames(r, [spec3], 1, kind, want_clean=False)
+                    se = fe[0][4]
+                    ne = len(se)
+                    for mask in range(1 << (ne - 1)):
+                        if quick and kind == "bin" and mask % 4:
+                            continue
+                        cases.append(stream_case(kind, client, fe, cuts_to_chunks(se, [i + 1 for i in range(ne - 1) if mask >> i & 1]), "exception-allcuts"))
+                    cases.append(stream_case(kind, client, fe + fe, [se + se], "exception-pair"))
             # (a') size extremes (PDU 1, 2, 250..253 bytes; RTU frames up to 256 bytes): whole, cuts near both
             #      ends and sampled cuts, one frame per read, tiny frame followed by a maximal one
             ext = [m for m in extreme_specs() if m[1] == client]
@@ -814,7 +847,7 @@ def c06_regions(desc):
     for c in desc["chunks"]:
         tot += len(c) // 2
         cuts.append(tot)
-    if not desc.get("decodable", True):
+    if not desc.get("decodable", True) and any(known_undecodable(f[0], bytes.fromhex(f[2])) for f in desc["frames"]):
         regs.add("pdu")
     if desc["kind"] == "rtu":
         # the known wrong oracles are those of the diagnostic classes (function code 8) only
@@ -875,7 +908,7 @@ def regions_for(pid, suite, desc):
             regs.add("escaping")
         if desc["kind"] == "rtu" and not desc.get("size_ok", True) and desc.get("fc") == 8:
             regs.add("size")
-        if not desc.get("decodable", True):
+        if not desc.get("decodable", True) and known_undecodable(desc.get("cls"), bytes([desc["fc"]]) + bytes.fromhex(desc["data"])):
             regs.add("pdu")
         return regs
     if suite == "b_size":
